@@ -1,25 +1,60 @@
 (* C04 -- Text content is placed verbatim: inline text and wrapped lines.
-   Property theorems only; each closed by [exact] of a lemma proved in proofs/.  (work in progress) *)
+   Property theorems only; each closed by [exact] of a lemma proved in proofs/.
+
+   Vocabulary (proofs/TextSpec.v): [unescape T] -- a backslash makes the next character literal;
+   [bal 0 T] -- the braces of T balance modulo escapes, `$` occurs only escaped, no dangling backslash;
+   [wrap_lines ls] -- the non-blank lines, trimmed, in order. *)
 From Coq Require Import String.
 From Emmet Require Import lib.Base lib.StrLit model.MarkupTokenizer model.MarkupParser model.MarkupConvert
-     proofs.TextSpec proofs.TextProofs proofs.TextConvert.
+     model.MarkupResolve proofs.ParserSpine proofs.TextSpec proofs.TextProofs proofs.TextParse proofs.TextLiteral
+     proofs.TextConvert.
 
-(* the literal scanner inside `{...}`: whatever the payload contains -- operators, brackets, quotes, `*`,
-   white space, unicode -- as long as its braces balance modulo escapes and `$` is escaped, the scanner
-   takes all of it up to the closing brace and yields the payload with escapes resolved *)
-Theorem C04_literal_scanner_partial :
+(* text_literal.  For EVERY payload T whose braces balance modulo escapes and whose `$` are escaped --
+   operators, brackets, quotes, `*`, white space, line breaks, unicode included -- the front end
+   (tokenize, parse, convert) turns `name{T}` into the single node `name` whose value is the payload
+   with escapes resolved, character for character. *)
+Theorem C04_text_literal :
+  forall (jsx : bool) (env : cenv) (max_repeat : option N) (name T : str),
+    name_ok name -> bal 0 T = true -> ce_text env = WNone ->
+    parse_abbr jsx env max_repeat (name ++ c_lbrace :: T ++ [c_rbrace]) =
+      Ok [ANode (Some name) (text_value T) None None [] false].
+Proof. exact text_literal. Qed.
+Print Assumptions C04_text_literal.
+
+(* its three stages, each for all inputs.  (1) the literal scanner inside `{...}` at any nesting depth *)
+Theorem C04_literal_scanner :
   forall (T : str) (d : nat) (es : Z) (prev : option char) (attr : Z) (rest : str),
     (0 < es)%Z -> bal d T = true ->
     lit None attr es (es + Z.of_nat d) prev false (T ++ c_rbrace :: rest) = (unescape T, length T, es).
 Proof. exact lit_text. Qed.
-Print Assumptions C04_literal_scanner_partial.
+Print Assumptions C04_literal_scanner.
 
+(* (2) the tokens of `name{T}`: name, `{`, leading white space, ONE literal holding the rest, `}` *)
+Theorem C04_tokenize_text :
+  forall (name T : str), name_ok name -> bal 0 T = true ->
+    tokenize (name ++ c_lbrace :: T ++ [c_rbrace]) = TOk (text_abbr_tokens name T).
+Proof. exact tokenize_text. Qed.
+Print Assumptions C04_tokenize_text.
+
+(* (3) the parser: `name{ inner }` is one element block with value [inner], so by the C01 spine theorem
+   text may sit on any element of a flat statement (`a{..}>b{..}+c`) *)
+Theorem C04_text_block :
+  forall (jsx : bool) (nt open close : token) (v : str) (inner : list token),
+    tk nt = TLiteral v -> tk open = TBracket true BExpr -> tk close = TBracket false BExpr ->
+    Forall not_expr_bracket inner ->
+    block_ok jsx (nt :: open :: inner ++ [close]) (mkLeaf (Some [nt]) None (Some inner) None false).
+Proof. exact block_text. Qed.
+Print Assumptions C04_text_block.
+
+(* group_bracket_text: `(` and `)` inside a value are written back as themselves *)
 Theorem C04_group_bracket_text :
   forall (env : cenv) (t : token) (st : cst) (op : bool),
     tk t = TBracket op BGroup -> stringify env t st = Ok ([if op then c_lparen else c_rparen], st).
 Proof. exact group_bracket_text. Qed.
 Print Assumptions C04_group_bracket_text.
 
+(* placeholder_total: `$#` always yields a string -- the line of the closest implicit repeater, the
+   whole text when there is none -- never None / an internal error *)
 Theorem C04_placeholder_total :
   forall (env : cenv) (t : token) (st : cst),
     tk t = TRepeaterPlaceholder -> reps_in_range env st ->
@@ -27,5 +62,9 @@ Theorem C04_placeholder_total :
 Proof. exact placeholder_total. Qed.
 Print Assumptions C04_placeholder_total.
 
-Example C04_nonvacuous : bal 0 (S "a>b*3 \{x\} {(y)} [""]") = true.
-Proof. reflexivity. Qed.
+(* non-vacuity: a payload full of syntax satisfies the hypotheses, and the theorem's conclusion computes *)
+Example C04_nonvacuous :
+  name_ok (S "p") /\ bal 0 (S "a>b*3 \{x\} {(y)} [""] \$") = true /\
+  parse_abbr false (mkCenv WNone [] false) None (S "p{ *>\}{+}}") =
+    Ok [ANode (Some (S "p")) (Some [VStr (S " *>}{+}")]) None None [] false].
+Proof. split; [split; [discriminate|repeat constructor]|split; vm_compute; reflexivity]. Qed.
